@@ -1,50 +1,194 @@
 """random abstract expressions for the SPECIFICATION side of the expression round trip
-(lean/GoldModel/Props/C06Expr.lean): a tree over the 23 binary operators, atoms and parentheses is
-printed with the parentheses its shape needs (plus random redundant ones); the prefix form with
-token indices is later filled with the implementation's own tokens and handed to the Lean spec
-(`exspec` driver mode), whose `Ex.tree` is compared with the tree the implementation built."""
+(lean/GoldModel/Props/C06Expr.lean): a tree over the full expression grammar of `parse_expr` — atoms, parentheses,
+the 23 binary operators, prefix operators, postfix `++`/`--`, member-access chains of identifiers / calls / indexings,
+set literals — is printed with the parentheses its shape needs (plus random redundant ones where the grammar allows an
+expression); the prefix form with token indices is later filled with the implementation's own tokens and handed to the
+Lean spec (`exspec` driver mode), whose `Ex.tree` is compared with the tree the implementation built."""
 from .wf import LEVELS
 
-ATOMS = ["a", "b", "Foo_1", "zz9", "x", "12", "3.5", "'s t'", "true", "FALSE", "nil", "top", "order", "into", "conditional"]
+IDENTS = ["a", "b", "Foo_1", "zz9", "x", "top", "order", "into", "conditional", "m", "obj"]
+LITERALS = ["12", "3.5", "'s t'", "true", "FALSE", "nil"]
+ATOMS = IDENTS + LITERALS
+PRE = ["not", "bNot", "@", "inherited", "-"]
+POST = ["++", "--"]
+
+
+def gen_elem(r, depth):
+    """element of a chain: ('id', name) | ('call', name, [args]) | ('idx', name, e)"""
+    c = r.below(5) if depth > 0 else 0
+    if c == 3:
+        return ("call", r.choice(IDENTS), [gen(r, depth - 1) for _ in range(r.below(4))])
+    if c == 4:
+        return ("idx", r.choice(IDENTS), gen(r, depth - 1))
+    return ("id", r.choice(IDENTS))
+
+
+def gen_chain(r, depth):
+    return ("chain", [gen_elem(r, depth) for _ in range(1 + r.below(3))])
+
+
+def gen_primary(r, depth):
+    """something `parse_primary` accepts without parentheses"""
+    if depth == 0:
+        return ("atom", r.choice(ATOMS))
+    c = r.below(8)
+    if c == 0:
+        return ("pre", r.choice(PRE), gen_primary(r, depth - 1))
+    if c == 1:
+        return ("post", gen_chain(r, depth - 1), r.choice(POST))
+    if c == 2:
+        return ("set", [gen(r, depth - 1) for _ in range(r.below(4))])
+    if c in (3, 4):
+        return gen_chain(r, depth)
+    return ("atom", r.choice(ATOMS))
 
 
 def gen(r, depth):
-    """abstract tree: ('atom', text) | ('bin', level(1..8), op, l, r)"""
+    """abstract tree: ('atom', text) | ('bin', level(1..8), op, l, r) | ('pre', op, e) | ('post', chain, op) |
+    ('chain', [elements]) | ('set', [items])"""
     if depth == 0 or r.chance(1, 4):
-        return ("atom", r.choice(ATOMS))
-    lv = 1 + r.below(len(LEVELS))
-    return ("bin", lv, r.choice(LEVELS[lv - 1]), gen(r, depth - 1), gen(r, depth - 1))
+        return gen_primary(r, depth)
+    if r.chance(1, 2):
+        lv = 1 + r.below(len(LEVELS))
+        return ("bin", lv, r.choice(LEVELS[lv - 1]), gen(r, depth - 1), gen(r, depth - 1))
+    return gen_primary(r, depth)
 
 
 def level(t):
     return t[1] if t[0] == "bin" else 0
 
 
-def render(r, t, ctx, words, prefix, redundant=True):
-    """append the words of `t` printed in a context that allows level ≤ ctx; `prefix` receives the prefix form
-    with `#i` = index of the word in `words`"""
-    need = level(t) > ctx
-    if need or (redundant and r.chance(1, 12)):
-        prefix += ["P", "#%d" % len(words)]
-        words.append("(")
-        render(r, t, 8, words, prefix, redundant)
-        prefix.append("#%d" % len(words))
-        words.append(")")
-        return
-    if t[0] == "atom":
-        prefix += ["A", "#%d" % len(words)]
-        words.append(t[1])
-        return
-    _, lv, op, l, rr = t
-    prefix.append("B")
-    render(r, l, lv, words, prefix, redundant)
-    prefix.append("#%d" % len(words))
-    words.append(op)
-    render(r, rr, lv - 1, words, prefix, redundant)
+def constructors(t, acc):
+    """the set of constructors of `Ex` the tree uses"""
+    k = t[0]
+    if k == "atom":
+        acc.add("atom")
+    elif k == "bin":
+        acc.add("bin")
+        constructors(t[3], acc)
+        constructors(t[4], acc)
+    elif k == "pre":
+        acc.add("pre")
+        constructors(t[2], acc)
+    elif k == "post":
+        acc.add("post")
+        constructors(t[1], acc)
+    elif k == "set":
+        acc.add("set%d" % min(len(t[1]), 2))
+        for x in t[1]:
+            constructors(x, acc)
+    elif k == "chain":
+        if len(t[1]) > 1:
+            acc.add("dot")
+        for e in t[1]:
+            if e[0] == "id":
+                acc.add("atom")
+            elif e[0] == "call":
+                acc.add("call%d" % min(len(e[2]), 2))
+                for x in e[2]:
+                    constructors(x, acc)
+            else:
+                acc.add("index")
+                constructors(e[2], acc)
+    return acc
+
+
+class Out:
+    def __init__(self, r, redundant):
+        self.r, self.redundant = r, redundant
+        self.words, self.prefix, self.parens = [], [], 0
+
+    def tok(self, w):
+        self.prefix.append("#%d" % len(self.words))
+        self.words.append(w)
+
+    def args(self, items, ctx):
+        """`N` | `O ex` | `M ex , args`"""
+        if not items:
+            self.prefix.append("N")
+            return
+        for i, x in enumerate(items):
+            last = i == len(items) - 1
+            self.prefix.append("O" if last else "M")
+            self.expr(x, ctx)
+            if not last:
+                self.tok(",")
+
+    def elem(self, e):
+        if e[0] == "id":
+            self.prefix.append("A")
+            self.tok(e[1])
+        elif e[0] == "call":
+            self.prefix.append("C")
+            self.tok(e[1])
+            self.tok("(")
+            self.args(e[2], 8)
+            self.tok(")")
+        else:
+            self.prefix.append("I")
+            self.tok(e[1])
+            self.tok("[")
+            self.expr(e[2], 8)
+            self.tok("]")
+
+    def chain(self, t):
+        elems = t[1]
+        self.prefix += ["D"] * (len(elems) - 1)
+        self.elem(elems[0])
+        for e in elems[1:]:
+            self.tok(".")
+            self.elem(e)
+
+    def expr(self, t, ctx):
+        """append the words of `t` printed in a context that allows level ≤ ctx"""
+        need = level(t) > ctx
+        if need or (self.redundant and self.r.chance(1, 12)):
+            if not need:
+                self.parens += 1
+            self.prefix.append("P")
+            self.tok("(")
+            self.expr(t, 8)
+            self.tok(")")
+            return
+        k = t[0]
+        if k == "atom":
+            self.prefix.append("A")
+            self.tok(t[1])
+        elif k == "bin":
+            _, lv, op, l, rr = t
+            self.prefix.append("B")
+            self.expr(l, lv)
+            self.tok(op)
+            self.expr(rr, lv - 1)
+        elif k == "pre":
+            self.prefix.append("U")
+            self.tok(t[1])
+            self.expr(t[2], 0)
+        elif k == "post":
+            self.prefix.append("Q")
+            self.chain(t[1])
+            self.tok(t[2])
+        elif k == "chain":
+            self.chain(t)
+        elif k == "set":
+            self.prefix.append("S")
+            self.tok("[")
+            self.args(t[1], 0)
+            self.tok("]")
+        else:
+            raise ValueError(k)
+
+
+def render(r, t, redundant=True):
+    o = Out(r, redundant)
+    o.expr(t, 8)
+    return o.words, o.prefix
 
 
 def case(r, depth):
     t = gen(r, depth)
-    words, prefix = [], []
-    render(r, t, 8, words, prefix)
-    return words, prefix
+    words, prefix = render(r, t)
+    cons = constructors(t, set())
+    if "P" in prefix:
+        cons.add("paren")
+    return words, prefix, cons
